@@ -376,7 +376,7 @@ Definition units22 : list pstate := [st1 [mkq 1 2; mkq 1 1] [0; 0]; st1 [mkq 1 1
 (* scalar weight + coupling template: the template is ignored *)
 Definition N_scalar_coupling : popnet :=
   {| pops := two_pops 2 2; conns := [mkconn 0 0 1 0 (WScal (mkq 2 1)) cpl_diff 0 0] |}.
-Lemma refuted_scalar_coupling : fixed_F3 = false ->
+Lemma scalar_coupling_before_fix : fixed_F3 = false ->
   wf_net N_scalar_coupling = true /\ g_scalar_plain N_scalar_coupling = false /\
   pop_run unit_poly N_scalar_coupling units22 (mkq 1 4) 2 <> Some (exp_run 0 unit_poly N_scalar_coupling units22 (mkq 1 4) 2).
 Proof.
@@ -396,7 +396,7 @@ Proof. repeat split; try (vm_compute; reflexivity). apply otraj_neq. vm_compute.
 (* post-synaptic variable named like the source variable, two populations of equal size: the source is lost *)
 Definition N_post_name : popnet :=
   {| pops := two_pops 2 2; conns := [mkconn 0 0 1 0 (WMat W22) cpl_diff 0 0] |}.
-Lemma refuted_post_name : fixed_F2 = false ->
+Lemma post_name_before_fix : fixed_F2 = false ->
   wf_net N_post_name = true /\ g_post_name N_post_name = false /\
   pop_run unit_poly N_post_name units22 (mkq 1 4) 2 <> Some (exp_run 0 unit_poly N_post_name units22 (mkq 1 4) 2).
 Proof.
@@ -414,11 +414,21 @@ Definition N_alias : popnet :=
   {| pops := two_pops 2 2; conns := [mkconn 1 0 0 0 (WMat W22) cpl_diff 0 0; mkconn 0 0 0 0 (WMat W22) CPlain 0 0] |}.
 Definition N_delay_1x1 : popnet :=
   {| pops := two_pops 1 1; conns := [mkconn 0 0 1 0 (WMat ((mkq 3 1 :: nil) :: nil)) CPlain 0 2] |}.
+Lemma dup_sources_before_fix : fixed_F1 = false ->
+  wf_net N_dup_sources = true /\ g_distinct_sources N_dup_sources = false /\ pop_run unit_poly N_dup_sources units22 (mkq 1 4) 2 = None.
+Proof.
+  intros Hflag. vm_compute in Hflag.
+  first [ discriminate Hflag | repeat split; vm_compute; reflexivity ].
+Qed.
+Lemma alias_before_fix : fixed_F6 = false ->
+  wf_net N_alias = true /\ g_no_alias N_alias = false /\ pop_run unit_poly N_alias units22 (mkq 1 4) 2 = None.
+Proof.
+  intros Hflag. vm_compute in Hflag.
+  first [ discriminate Hflag | repeat split; vm_compute; reflexivity ].
+Qed.
 Lemma refuted_loud :
-  (wf_net N_dup_sources = true /\ g_distinct_sources N_dup_sources = false /\ pop_run unit_poly N_dup_sources units22 (mkq 1 4) 2 = None) /\
   (wf_net N_coupling_shape = true /\ g_coupling_shape N_coupling_shape = false /\
    pop_run unit_poly N_coupling_shape [st1 [mkq 1 2; mkq 1 1] [0; 0]; st1 (mkq 1 1 :: nil) (0 :: nil)] (mkq 1 4) 2 = None) /\
-  (wf_net N_alias = true /\ g_no_alias N_alias = false /\ pop_run unit_poly N_alias units22 (mkq 1 4) 2 = None) /\
   (wf_net N_delay_1x1 = true /\ g_delay_shape N_delay_1x1 = false /\
    pop_run unit_poly N_delay_1x1 [st1 (mkq 1 2 :: nil) (0 :: nil); st1 (mkq 1 1 :: nil) (0 :: nil)] (mkq 1 4) 2 = None).
 Proof. repeat split; vm_compute; reflexivity. Qed.
@@ -482,4 +492,141 @@ Proof.
       destruct Hv as (cV' & <- & Hin').
       rewrite Forall_forall in HFl. destruct (HFl cV' Hin') as [(Hwf' & _ & Hsh') Ht'].
       rewrite pop_contrib_length by assumption. now rewrite Ht'.
+Qed.
+
+(* ================================================================== whole Euler trajectories *)
+(* shape invariant of the unit states *)
+Definition good_units (N : popnet) (us : list pstate) : Prop :=
+  length us = length (pops N) /\
+  forall p, (p < length (pops N))%nat ->
+    length (sx (nth p us dps)) = size_of N p /\ length (sz (nth p us dps)) = size_of N p.
+Definition good_hist (N : popnet) (h : list nstate) : Prop := Forall (fun st => good_units N (fst st)) h.
+
+Lemma wf_units_good N us : wf_units N us = true -> good_units N us.
+Proof.
+  unfold wf_units. rewrite andb_true_iff, Nat.eqb_eq. intros [HL HF]. split; [exact HL|].
+  intros p Hp. rewrite forallb_forall in HF.
+  assert (Hin : In (nth p us dps, nth p (pops N) dpop) (combine us (pops N))).
+  { rewrite <- combine_nth by exact HL. apply nth_In. rewrite combine_length, HL. lia. }
+  specialize (HF _ Hin). cbn [fst snd] in HF. apply andb_true_iff in HF. destruct HF as [H1 H2].
+  apply Nat.eqb_eq in H1. apply Nat.eqb_eq in H2. unfold size_of, pop_of. split; assumption.
+Qed.
+
+Lemma pvar_length N us p v : good_units N us -> (p < length (pops N))%nat -> length (pvar (nth p us dps) v) = size_of N p.
+Proof. intros [_ H] Hp. destruct (H p Hp) as [H1 H2]. unfold pvar. destruct (v =? 0)%nat; assumption. Qed.
+
+Lemma delayed_length N h d who var : good_hist N h -> (who < length (pops N))%nat ->
+  length (delayed N h d who var) = size_of N who.
+Proof.
+  intros Hh Hw. unfold delayed. destruct (nth_error h d) as [st|] eqn:E; [|apply repeat_length].
+  apply nth_error_In in E. unfold good_hist in Hh. rewrite Forall_forall in Hh. apply pvar_length; [now apply Hh|exact Hw].
+Qed.
+
+Lemma nth_map_seq {A} (F : nat -> A) n p d : (p < n)%nat -> nth p (map F (seq 0 n)) d = F p.
+Proof. intros H. rewrite (nth_map_lt F (seq 0 n) p 0%nat d) by (rewrite seq_length; exact H). now rewrite seq_nth. Qed.
+
+(* a derivative built unit by unit has the shapes of the network *)
+Lemma units_of_map_good N (F : nat -> nat -> Qc * Qc) :
+  good_units N (map (fun p => let d := map (F p) (seq 0 (psize (pop_of N p))) in {| sx := map fst d; sz := map snd d |})
+                    (seq 0 (length (pops N)))).
+Proof.
+  split; [now rewrite map_length, seq_length|]. intros p Hp.
+  rewrite (nth_map_seq _ _ p dps Hp). cbn [sx sz]. rewrite !map_length, seq_length. unfold size_of. split; reflexivity.
+Qed.
+
+Lemma vaxpy_length dt x dx : length (vaxpy dt x dx) = Nat.min (length x) (length dx).
+Proof. apply zipw_length. Qed.
+
+Lemma euler_good N dt st d : good_units N (fst st) -> good_units N (fst d) -> good_units N (fst (euler dt st d)).
+Proof.
+  intros [L1 H1] [L2 H2]. unfold euler. cbn [fst]. split; [rewrite zipw_length; lia|].
+  intros p Hp. rewrite (nth_zipw _ _ _ p dps dps dps) by lia. cbn [sx sz]. rewrite !vaxpy_length.
+  destruct (H1 p Hp) as [A1 A2]. destruct (H2 p Hp) as [B1 B2]. unfold vec in *. rewrite A1, A2, B1, B2. lia.
+Qed.
+
+(* guard of the trajectory theorem: per-connection guards, no loud class, no dynamic coupling (edge states) *)
+Definition no_dyn (N : popnet) : bool := forallb (fun c => negb (is_dyn (ccpl c))) (conns N).
+Definition traj_guard (N : popnet) : bool := forallb (conn_guard N) (conns N) && negb (loud N) && no_dyn N.
+
+Lemma conn_ok_all N h : wf_net N = true -> forallb (conn_guard N) (conns N) = true -> no_dyn N = true -> good_hist N h ->
+  Forall (conn_ok N h) (combine (conns N) (snd (cur h) ++ repeat [] (length (conns N)))).
+Proof.
+  intros Hwf Hg Hnd Hh. apply Forall_forall. intros [c V] Hin. apply in_combine_l in Hin.
+  unfold wf_net in Hwf. apply andb_true_iff in Hwf. destruct Hwf as [_ Hwc].
+  rewrite forallb_forall in Hwc, Hg. unfold no_dyn in Hnd. rewrite forallb_forall in Hnd.
+  specialize (Hwc c Hin). specialize (Hg c Hin). specialize (Hnd c Hin).
+  unfold conn_ok. cbn [fst snd]. repeat split; try assumption.
+  - unfold wf_conn in Hwc. apply andb_true_iff in Hwc. destruct Hwc as [Hwc _]. apply andb_true_iff in Hwc.
+    destruct Hwc as [Hs _]. apply Nat.ltb_lt in Hs. now apply delayed_length.
+  - unfold wf_conn in Hwc. apply andb_true_iff in Hwc. destruct Hwc as [Hwc _]. apply andb_true_iff in Hwc.
+    destruct Hwc as [_ Ht]. apply Nat.ltb_lt in Ht. unfold post_of. now apply delayed_length.
+  - intros Hd. rewrite Hd in Hnd. discriminate Hnd.
+Qed.
+
+(* one evaluation of the right-hand side: population circuit = explicit network, as whole states *)
+Lemma deriv_eq U N h : wf_net N = true -> forallb (conn_guard N) (conns N) = true -> no_dyn N = true -> good_hist N h ->
+  pop_deriv U N h = exp_deriv 0 U N h.
+Proof.
+  intros Hwf Hg Hnd Hh. pose proof (conn_ok_all N h Hwf Hg Hnd Hh) as Hok.
+  unfold pop_deriv, exp_deriv. f_equal.
+  - apply map_ext_in. intros p Hp. apply in_seq in Hp. cbv zeta.
+    assert (E : map (fun i => U (map (fun v => nth i v 0) (pop_pars (pop_of N p))) (nth i (sx (nth p (fst (cur h)) dps)) 0)
+                                (nth i (sz (nth p (fst (cur h)) dps)) 0) (nth i (pop_input N h p 0) 0) (nth i (pop_input N h p 1) 0))
+                    (seq 0 (psize (pop_of N p))) =
+                map (fun i => U (exp_pars (pop_of N p) i) (nth i (sx (nth p (fst (cur h)) dps)) 0)
+                                (nth i (sz (nth p (fst (cur h)) dps)) 0) (exp_input 0 N h p 0 i) (exp_input 0 N h p 1 i))
+                    (seq 0 (psize (pop_of N p)))).
+    { apply map_ext_in. intros i Hi. apply in_seq in Hi.
+      rewrite pop_pars_unit by lia.
+      rewrite !pop_input_is_exp_input by (try exact Hok; unfold size_of; lia). reflexivity. }
+    rewrite E. reflexivity.
+  - apply map_ext_in. intros [c V] Hin. apply in_combine_l in Hin. cbn [fst snd].
+    unfold no_dyn in Hnd. rewrite forallb_forall in Hnd. specialize (Hnd c Hin).
+    unfold pop_edge_deriv, exp_edge_deriv. destruct (cw c), (ccpl c); try reflexivity; discriminate Hnd.
+Qed.
+
+Lemma deriv_good U N h : good_units N (fst (exp_deriv 0 U N h)).
+Proof. unfold exp_deriv. cbn [fst]. apply (units_of_map_good N). Qed.
+
+Lemma run_hist_eq U N dt init k :
+  wf_net N = true -> forallb (conn_guard N) (conns N) = true -> no_dyn N = true -> good_units N (fst init) ->
+  run_hist (pop_deriv U N) dt init k = run_hist (exp_deriv 0 U N) dt init k /\
+  good_hist N (run_hist (exp_deriv 0 U N) dt init k) /\ good_units N (fst (cur (run_hist (exp_deriv 0 U N) dt init k))).
+Proof.
+  intros Hwf Hg Hnd Hi. induction k as [|k (IH1 & IH2 & IH3)]; cbn [run_hist].
+  - split; [reflexivity|]. split; [constructor; [exact Hi|constructor]|exact Hi].
+  - rewrite IH1. rewrite (deriv_eq U N _ Hwf Hg Hnd IH2).
+    assert (Hnew : good_units N (fst (euler dt (cur (run_hist (exp_deriv 0 U N) dt init k))
+                                          (exp_deriv 0 U N (run_hist (exp_deriv 0 U N) dt init k))))).
+    { apply euler_good; [exact IH3|apply deriv_good]. }
+    split; [reflexivity|]. split; [constructor; assumption|exact Hnew].
+Qed.
+
+Lemma norm_id N : forallb (conn_guard N) (conns N) = true -> norm N = N.
+Proof.
+  intros Hg. unfold norm. destruct N as [ps cs]. cbn [pops conns] in *. f_equal.
+  transitivity (map (fun c : conn => c) cs); [|apply map_id]. apply map_ext_in. intros c Hin. rewrite forallb_forall in Hg. specialize (Hg c Hin).
+  unfold conn_guard in Hg. apply andb_true_iff in Hg. destruct Hg as [_ Hg].
+  unfold norm_conn. destruct (cw c); [reflexivity|]. destruct (ccpl c); try discriminate Hg.
+  cbn [is_plain negb]. now rewrite andb_false_r.
+Qed.
+
+Lemma init_edges_no_dyn N v0 : no_dyn N = true -> init_edges N v0 = init_edges_exp N v0.
+Proof.
+  intros Hnd. unfold init_edges, init_edges_exp. apply map_ext_in. intros c Hin.
+  unfold no_dyn in Hnd. rewrite forallb_forall in Hnd. specialize (Hnd c Hin).
+  destruct (cw c), (ccpl c); try reflexivity; discriminate Hnd.
+Qed.
+
+(* what `run` returns: for ANY number of rows the population circuit produces the trajectory of the explicit network *)
+Theorem pop_run_is_exp_run U N units dt rows :
+  wf_net N = true -> wf_units N units = true -> traj_guard N = true ->
+  pop_run U N units dt rows = Some (exp_run 0 U N units dt rows).
+Proof.
+  intros Hwf Hu Hg. unfold traj_guard in Hg. apply andb_true_iff in Hg. destruct Hg as [Hg Hnd].
+  apply andb_true_iff in Hg. destruct Hg as [Hg Hl]. apply negb_true_iff in Hl.
+  unfold pop_run, exp_run. rewrite (norm_id N Hg). cbv zeta. rewrite Hl. f_equal.
+  rewrite (init_edges_no_dyn N 0 Hnd). unfold traj. destruct rows as [|k]; [reflexivity|].
+  destruct (run_hist_eq U N dt (units, init_edges_exp N 0) k Hwf Hg Hnd (wf_units_good N units Hu)) as [E _].
+  now rewrite E.
 Qed.
